@@ -2,7 +2,7 @@ SPEC = {
     "id": "C10",
     "props_module": "NDB.Props.C10",
     "corr_modules": ["NDB.Corr.C10"],
-    "theorems": ["C10_exclusive", "C10_nolock_refuted"],
+    "theorems": ["C10_exclusive", "C10_nolock_refuted", "C10_offline_nolock_refuted"],
     "allowed_axioms": [],
     "harness_pkg": "hx_conc",
     "harness_bin": "c10",
@@ -20,8 +20,9 @@ SPEC = {
         "are covered by the in-process writer mutex (C09/C35), not here",
     ],
     "assumptions": [
-        "all handles go through GraphEngine::open (Db::open, ndb_open); the offline tools vacuum_in_place and BulkLoader open the "
-        "page file directly and do not take the lock (reported as residual risk)",
+        "writers of the database files are handles (GraphEngine::open via Db::open / ndb_open) and the offline tools vacuum_in_place and "
+        "BulkLoader::commit, which take the same lock since fix aa0c06d (model: HOffline = lock, rewrite, unlock in one call); the backup "
+        "manager only reads",
         "the lock is advisory: a process that ignores it, or a file system without flock semantics (some network file systems), "
         "is outside the statement",
     ],
@@ -30,7 +31,7 @@ SPEC = {
         "text": "Theorem over all interleavings of any number of handles' open/commit/compact/close sequences under the open-time "
                 "lock protocol (the code after fix 039246a): at most one handle is open, every write reaches the files while its "
                 "writer holds the lock, and the trace of results is the history of a single handle opened and closed repeatedly "
-                "(other opens are refused and act on nothing), so the single-handle properties apply. The no-lock behaviour of the "
+                "(other opens are refused and act on nothing; an offline tool - vacuum, bulk load - runs only while no handle is open, fix aa0c06d), so the single-handle properties apply. The no-lock behaviour of the "
                 "pinned tree is refuted by a two-handle witness, which reproduced on the real code (database no longer reopened). "
                 "Correspondence and direct search on the real code with handles in one process and in a child process: results of "
                 "every call = model; never two open handles; after closing everything the database reopens with exactly the "
